@@ -26,6 +26,7 @@ FIXREV = {
     "fixrev-binary-gamma": ("C08", ["C08"], "reverse of the fix: European binary gamma/vega/theta at any time to maturity other than 1"),
     "fixrev-parse-spot-strike": ("C08", ["C08"], "reverse of the fix: automatic Greeks with a Python-float strike rounded through float32"),
     "fixrev-pl-cost-dtype": ("C01", ["C01"], "reverse of the fix: cost rates rounded through float32 in a float64 P&L"),
+    "fixrev-clamp-bound-dtype": ("C20", ["C20"], "reverse of the fix: Python-number clamp bounds rounded through float32 on float64 inputs"),
     "fixrev-cir-zero-variance": ("C11", ["C11"], "reverse of the fix: generate_cir / CIRRate NaN when the step has no variance (sigma = 0)"),
 }
 EXTRA = {"C03-B-stale-prev-output": ["C03", "C16"], "C16-B-prev-output-not-rezeroed": ["C16", "C03"], "C04-A-es-ties-at-quantile": ["C04", "C05"],
